@@ -197,6 +197,62 @@ def shard(task):
                 continue
             run(img, base["password"], f"{base['name']} {label}", {"input": "token", "field": label.split(":")[0].split("[")[0]},
                 {"kind": "tokens", "base": bidx, "label": label, "maxlen": maxlen})
+    elif kind == "scale":
+        # well-formed (or nearly so) headers that are LARGE in one dimension: the time of open() must grow in proportion to the input.
+        # Each family is built at n, 2n and 4n; four times the input taking more than ten times as long is super-linear.
+        from mc.ref import ref7z as _ref
+
+        def family(name, n):
+            tiny = lambda i, kind="file", data=b"x": {"name": "f%d" % i, "kind": kind, "data": data, "mtime": None, "attr": None}  # noqa
+            if name == "folders":      # n folders, n packed streams
+                return _ref.write([tiny(i) for i in range(n)], {"folders": [[i] for i in range(n)], "chains": [[("COPY", {})]] * n, "crc": "none"})
+            if name == "files":        # n members of one solid folder
+                return _ref.write([tiny(i) for i in range(n)], {"folders": [list(range(n))], "chains": [[("COPY", {})]], "crc": "substream"})
+            if name == "emptyfiles":   # n stream-less members
+                return _ref.write([tiny(i, "emptyfile", b"") for i in range(n)], {})
+            if name == "coders":       # one folder of n Copy coders chained by n-1 bind pairs
+                return _ref.write([tiny(0)], {"folders": [[0]], "chains": [[("COPY", {})] * n], "crc": "none"})
+            if name == "dupnames":     # n files whose names property is followed by n/4 further (3-byte) names properties
+                spec = ("scale-dup", [tiny(i, "emptyfile", b"") for i in range(n)], {}, None)
+                base = mutations.build(spec)
+                toks = [list(t) for t in base["tokens"]]
+                end = max(i for i, t in enumerate(toks) if t[2] == "Files.end")
+                toks[end:end] = [["raw", b"\x11\x01\x00", f"Files.dupnames[{j}]"] for j in range(n // 4)]
+                return mutations.seal(base, toks)
+            raise ValueError(name)
+
+        import py7zr
+
+        for name, n0 in arg:
+            times, sizes = [], []
+            try:
+                for n in (n0, 2 * n0, 4 * n0):
+                    img = family(name, n)
+                    sizes.append(len(img))
+                    best = None
+                    for _ in range(3):
+                        t0 = time.perf_counter()
+                        try:
+                            z = py7zr.SevenZipFile(io.BytesIO(img))
+                            z.getnames()
+                            z.close()
+                        except Exception:
+                            pass
+                        dt = time.perf_counter() - t0
+                        best = dt if best is None else min(best, dt)
+                    times.append(best)
+            except Exception as ex:
+                sh.count("scale_family_not_buildable")
+                sh.note("scale_build_errors", f"{name}: {type(ex).__name__}: {str(ex)[:60]}")
+                continue
+            sh.case(("scale", name, n0), nontrivial=True, sample={"family": name, "n": [n0, 2 * n0, 4 * n0], "bytes": sizes, "open_seconds": [round(t, 3) for t in times]})
+            sh.count("calls", 6)
+            r1, r2 = times[1] / max(times[0], 0.005), times[2] / max(times[1], 0.005)
+            # linear work doubles when the input doubles; both doublings costing more than 2.8x (and a measurable total) is super-linear
+            if (times[2] > 0.5 and r1 > 2.8 and r2 > 2.8) or times[2] > budget(sizes[2]):
+                sh.violation({"symptom": "superlinear-open", "input": "scale", "family": name},
+                             f"{name}: open()+getnames() takes {times[0]:.2f} s / {times[1]:.2f} s / {times[2]:.2f} s for inputs of {sizes[0]} / {sizes[1]} / {sizes[2]} bytes (n = {n0}, {2 * n0}, {4 * n0}): x{r1:.1f} and x{r2:.1f} per doubling",
+                             {"kind": "scale", "family": name, "n0": n0, "tier": tier, "maxlen": maxlen})
     elif kind == "bombs":
         # a packed stream that expands to N bytes while the folder DECLARES 10: memory must stay proportional to input + declared output
         import tracemalloc
@@ -293,6 +349,9 @@ def replay(case):
         for label, toks, outer in mutations.mutants(base, "all"):
             if label == case["label"]:
                 return probe(mutations.seal(base, toks, outer), base["password"], maxlen, lambda s: None, label)[0]
+    if case["kind"] == "scale":
+        r = shard(("scale", [(case["family"], case["n0"])], 1, case.get("tier", "quick")))
+        return [(v["sig"]["symptom"], v["what"]) for v in r["violations"]]
     if case["kind"] == "bomb":
         r = shard(("bombs", [case["codec"]], 1, case.get("tier", "quick")))
         return [(v["sig"]["symptom"], v["what"]) for v in r["violations"]]
@@ -342,6 +401,8 @@ def main(tier="quick", seed=0, only=None):
         tasks += [("tokens", (i, lo, min(lo + step, n)), maxlen, tier) for lo in range(0, n, step)]
     tasks.append(("password", None, maxlen, tier))
     tasks += [("bombs", [c], 1, tier) for c in ("LZMA2", "LZMA", "BZIP2", "DEFLATE", "DEFLATE64", "ZSTD", "BROTLI", "PPMD")]
+    n0 = 6000 if tier == "quick" else 20000
+    tasks += [("scale", [(fam, n0)], 1, tier) for fam in ("folders", "files", "emptyfiles", "coders", "dupnames")]
     tasks += [("sighdr", [i], 1, tier) for i in range(min(len(bases), 4 if tier == "quick" else 12))]
     import random
 
@@ -389,7 +450,7 @@ def main(tier="quick", seed=0, only=None):
             "tokens set to {0,1,2^7k-1,2^7k,2^32-1,2^32,2^63-1,2^63,2^64-1}, every property id replaced by every id 0..26 and FF, every bit "
             "of every flag byte, bit vectors, CRCs, FILETIMEs, names, method ids, AES properties; for packed headers the same single-token mutations of the outer streams info that describes the packed header; two deviations: a count NUMBER set to 2^32 / 2^63-1 together with one property id replaced by End (thorough: by every id)), each section dropped / duplicated / "
             "swapped with its successor, FilesInfo property sizes left stale and re-fitted; all outer CRCs re-sealed (raw, LZMA- and "
-            f"AES-encoded headers); missing and 5 wrong passwords; decompression bombs: for 8 codecs a packed stream expanding to 32 MiB in a folder that declares 10 bytes (peak Python-level memory, by tracemalloc, must stay within 64 x (input + declared output) + 16 MiB); the signature header's NextHeaderOffset / Size / CRC set to the boundary values with StartHeaderCRC re-sealed, each as a stream and as a real file opened by name. On every input that opens: every call sequence of length <= {maxlen} (byte-level damage: <= 2) over "
+            f"AES-encoded headers); missing and 5 wrong passwords; scaling series: five families of headers large in one dimension (n folders and packed streams, n files in one folder, n stream-less files, n chained coders in one folder, n files with n/4 repeated name properties) at n, 2n, 4n - open() must not take more than 2.8x as long at both doublings; decompression bombs: for 8 codecs a packed stream expanding to 32 MiB in a folder that declares 10 bytes (peak Python-level memory, by tracemalloc, must stay within 64 x (input + declared output) + 16 MiB); the signature header's NextHeaderOffset / Size / CRC set to the boundary values with StartHeaderCRC re-sealed, each as a stream and as a real file opened by name. On every input that opens: every call sequence of length <= {maxlen} (byte-level damage: <= 2) over "
             f"{OPS} on one session (incl. extract twice without reset). Oracle: each call returns or raises an Exception within 8 s + 50 us/byte, "
             "no MemoryError with RLIMIT_AS = baseline + 1 GiB, worker process alive. Non-trivial = the input got past open()."
         ),
